@@ -360,8 +360,10 @@ func (d *driver) runSpan(from, to, budget int, depth int) {
 			d.add(o)
 		}
 		if werr == nil && !open {
-			os.Remove(jpath)
-			os.Remove(epath)
+			if os.Getenv("VERIF_KEEP") == "" {
+				os.Remove(jpath)
+				os.Remove(epath)
+			}
 			return
 		}
 		// the worker died: the open case is the culprit
@@ -643,7 +645,7 @@ func (d *driver) finish(total int, slow []int, wall time.Duration) int {
 			continue
 		case "crash", "timeout", "oom":
 			executed++
-			if p.DeathIsViolation {
+			if p.DeathIsViolation || (p.Race && strings.Contains(o.info, "concurrent")) {
 				kind := map[string]string{"crash": "fatal", "timeout": "hang", "oom": "oom"}[o.status]
 				addViol(p.ID+"/"+kind+"/"+o.info, o, fmt.Sprintf("worker %s on this case: %s", o.status, o.info))
 			} else {
@@ -700,7 +702,7 @@ func (d *driver) finish(total int, slow []int, wall time.Duration) int {
 	for _, s := range sigs {
 		v := viols[s]
 		if k := isKnown(s); k != nil {
-			fmt.Printf("KNOWN-FINDING: property=%s %s (seen %d times in this run)\n", p.ID, k.text, v.count)
+			fmt.Printf("KNOWN-FINDING: %s (seen %d times in this run)\n", k.text, v.count)
 			knownHit = append(knownHit, s)
 			continue
 		}
